@@ -102,20 +102,39 @@ Proof.
   intros H; repeat (destruct H as [H|H]; [discriminate|]); exact H.
 Qed.
 
-(* a state in the middle of a sweep (pending list not empty) satisfying the hypotheses of
-   removal_during_sweep exists: reached by the compaction loop, see sweep_total's proof; the
-   hypothesis InvM of sweep_total holds after any marking of the example's registry *)
+(* the hypothesis InvM of sweep_total (invariant with mark bits set) is satisfiable by a state
+   with five colliding entries, one of them marked *)
+Example five_allocations : nitems (Grun ex_hash ex_owns false false (firstn 5 ex_ops) gc_init) = 5.
+Proof. vm_compute. reflexivity. Qed.
+
+Example first_five_admissible : Gadm ex_hash ex_owns false false (firstn 5 ex_ops) gc_init.
+Proof. apply adm_runb_ok; vm_compute; reflexivity. Qed.
+
 Example marked_state_satisfies_InvM :
-  exists g, InvM ex_hash g /\ Quiet g /\ exists e, In e (entries gentry (slots g)) /\ marked e = true.
+  exists g, InvM ex_hash g /\ Quiet g /\ nitems g = 5 /\ exists e, Holds gentry (slots g) e /\ marked e = true.
 Proof.
-  pose proof (registry_history ex_hash ex_owns false false (firstn 5 ex_ops)) as H.
-  destruct H as [[H _] Hq]; [apply adm_runb_ok; vm_compute; reflexivity|].
-  remember (Grun ex_hash ex_owns false false (firstn 5 ex_ops) gc_init) as g eqn:Hg.
-  exists (set_slots g (smap setmark (slots g))). split; [|split].
-  - apply (InvM_PW ex_hash g); [exact H| |repeat split].
-    apply PW_smap. intros e; split; reflexivity.
-  - exact Hq.
-  - subst g. vm_compute. eexists. split; [left; reflexivity|reflexivity].
+  destruct (registry_history ex_hash ex_owns false false (firstn 5 ex_ops) first_five_admissible) as [[H _] Hq].
+  pose proof five_allocations as Hn.
+  remember (Grun ex_hash ex_owns false false (firstn 5 ex_ops) gc_init) as g eqn:Hg. clear Hg.
+  destruct (Inv_nodup ex_hash g H) as [_ Hc]. rewrite Hn in Hc.
+  destruct (entries gentry (slots g)) as [|e es] eqn:He; [discriminate|].
+  destruct (mark_all_InvM ex_hash g H Hq) as [H1 [H2 [H3 H4]]].
+  eexists. split; [exact H1|]. split; [exact H2|]. split; [rewrite H3; exact Hn|].
+  exists (setmark e). apply H4. rewrite He. left. reflexivity.
+Qed.
+
+(* the hypotheses of removal_during_sweep are satisfiable with a non-empty pending list: the
+   invariant does not ask for `Quiet` *)
+Example pending_state_satisfies_Inv :
+  exists g, Inv ex_hash g /\ pending g = [Some 4096%N] /\ nitems g = 5 /\ measure g = 6.
+Proof.
+  destruct (registry_history ex_hash ex_owns false false (firstn 5 ex_ops) first_five_admissible) as [Hi Hq].
+  pose proof five_allocations as Hn.
+  assert (Hab : is_reg (slots (Grun ex_hash ex_owns false false (firstn 5 ex_ops) gc_init)) 4096 = false)
+    by (vm_compute; reflexivity).
+  remember (Grun ex_hash ex_owns false false (firstn 5 ex_ops) gc_init) as g eqn:Hg. clear Hg.
+  destruct (add_pending_Inv ex_hash g 4096%N Hi Hab) as [H1 [H2 [H3 H4]]].
+  eexists. split; [exact H1|]. split; [exact H2|]. split; [rewrite H3; exact Hn|rewrite H4, Hn; reflexivity].
 Qed.
 
 (* the allocator contract is needed: the same address registered twice breaks the count *)
